@@ -2,11 +2,14 @@
 (* C40 trace validation: the ACTUAL output of the real formatter / shell, one action per
    character, is read by the reference machines of Csv.tla and judged against the table it
    was printed from.  Line 1 of the trace: {"open": [ids of open deviations]}; every other
-   line: {"fmt": 1|2, "hdr": [[cp..]..], "rows": [[{k,s}..]..], "chars": [cp..]}.
+   line: {"fmt": 1|2, "sw": 0|1, "hdr": [[cp..]..], "rows": [[{k,s}..]..], "chars": [cp..]}.
+   sw = 1: the characters are consumed by the per-character actions of Csv.tla, one TLC state each;
+   sw = 0: the same step operator is folded over the characters inside one action (Whole) - same
+   machine, one state per output, so that every output of a run can be judged.
    Verdict per line: ACCEPT (accepted and reads back as expected), KNOWN (not accepted, but the
    output is character for character what the writer produces under a smallest set of open
    deviations), REJECT (anything else). *)
-EXTENDS Naturals, Integers, Sequences, FiniteSets, TLC, Json, IOUtils
+EXTENDS Naturals, Integers, Sequences, SequencesExt, FiniteSets, TLC, Json, IOUtils
 
 Alphabet == {}
 MaxLen == 0
@@ -48,9 +51,15 @@ Finish == /\ AtEnd /\ l <= Len(Rec)
              ELSE /\ EmitTag("DONE", [lines |-> l])
                   /\ pos' = 0 /\ input' = <<>> /\ UNCHANGED <<tbl, fmt, cs, js>>
           /\ UNCHANGED <<dev, shape>>
-Char == /\ (CsvComma \/ CsvDquote \/ CsvCr \/ CsvLf \/ CsvOther
+Whole == /\ pos = 1 /\ l <= Len(Rec) /\ Rec[l].sw = 0 /\ Len(input) >= 1
+         /\ cs' = (IF fmt = 1 THEN FoldLeft(CsvStep, CsvInit, input) ELSE cs)
+         /\ js' = (IF fmt = 2 THEN FoldLeft(JsonStep, JsonInit, input) ELSE js)
+         /\ pos' = Len(input) + 1
+         /\ UNCHANGED <<tbl, fmt, dev, shape, input, l>>
+Char == /\ l <= Len(Rec) /\ Rec[l].sw = 1
+        /\ (CsvComma \/ CsvDquote \/ CsvCr \/ CsvLf \/ CsvOther
             \/ JsonWs \/ JsonDquote \/ JsonBackslash \/ JsonControl \/ JsonDigit \/ JsonPunct \/ JsonOther)
         /\ UNCHANGED l
-TNext == Char \/ Finish
+TNext == Char \/ Whole \/ Finish
 TSpec == TInit /\ [][TNext]_tvars
 ====
